@@ -12,31 +12,7 @@ global size_of usize == 8;
 
 pub type TokenId = u32;
 
-/// bytes a token contributes to decode_raw (TokTrie::token / the \xFF[id] spelling of special tokens; its length is
-/// spec_token_len of unit chop_v)
-pub uninterp spec fn tok_bytes(t: u32) -> Seq<u8>;
-
-/// decode_raw as a function of the token sequence
-pub open spec fn dec(s: Seq<u32>) -> Seq<u8>
-    decreases s.len()
-{
-    if s.len() == 0 { Seq::empty() } else { dec(s.drop_last()) + tok_bytes(s.last()) }
-}
-
-pub proof fn lemma_dec_concat(a: Seq<u32>, b: Seq<u32>)
-    ensures dec(a + b) == dec(a) + dec(b),
-    decreases b.len()
-{
-    if b.len() == 0 {
-        assert(a + b =~= a);
-        assert(dec(a) + dec(b) =~= dec(a));
-    } else {
-        lemma_dec_concat(a, b.drop_last());
-        assert((a + b).drop_last() =~= a + b.drop_last());
-        assert((a + b).last() == b.last());
-        assert(dec(a + b) =~= dec(a) + dec(b));
-    }
-}
+//@@ include common/tokdec.vrs
 
 pub struct ShimTrie {}
 impl ShimTrie {
@@ -137,28 +113,6 @@ pub uninterp spec fn spec_ff_bytes(tp: TokenParser) -> Seq<u8>;
 pub broadcast proof fn axiom_cloned_u32(a: u32, b: u32)
     ensures #[trigger] cloned::<u32>(a, b) ==> a == b,
 { admit(); }
-
-pub proof fn lemma_dec_single(t: u32)
-    ensures dec(seq![t]) == tok_bytes(t),
-{
-    let s = seq![t];
-    assert(s.len() == 1 && s.last() == t);
-    assert(s.drop_last() =~= Seq::<u32>::empty());
-    assert(dec(s.drop_last()) =~= Seq::<u8>::empty());
-    assert(dec(s) == dec(s.drop_last()) + tok_bytes(s.last()));
-    assert(dec(s) =~= tok_bytes(t));
-}
-
-/// dec over a three-way split
-pub proof fn lemma_dec_split3(t: Seq<u32>, x: int, m: int)
-    requires 0 <= x <= m <= t.len(),
-    ensures dec(t) == dec(t.take(x)) + dec(t.subrange(x, m)) + dec(t.skip(m)),
-{
-    assert(t =~= t.take(m) + t.skip(m));
-    lemma_dec_concat(t.take(m), t.skip(m));
-    assert(t.take(m) =~= t.take(x) + t.subrange(x, m));
-    lemma_dec_concat(t.take(x), t.subrange(x, m));
-}
 
 impl TokenParser {
     pub fn tok_trie(&self) -> (r: &ShimTrie) { self.token_env.tok_trie() }
@@ -320,6 +274,8 @@ impl TokenParser {
             // (b) healing reached into the prompt: the chopped prompt bytes become the grammar prefix
             ||| (s.parser.forced.len() == 0 && s.llm_bytes@.len() == 0 && dec(res@) + s.grm_prefix@ == p)
         }),
+        // the invariant TokenParser::apply_token (unit apply_v) preserves: the recorded bytes are what the recorded tokens spell
+        final(self).llm_bytes@ == dec(final(self).llm_tokens@),
 //@ body_start
     broadcast use axiom_cloned_u8;
 //@ before self.llm_tokens =
